@@ -1014,10 +1014,14 @@ class Interp:
         itv = self.need(self.eval(g.iter, env))
         try:
             view = iter_view(self, itv, g.iter)
-        except Unsupported:
+        except Unsupported as _e:
+            import os as _o
+            if _o.environ.get("PYVC_DEBUG_COMP"): print("[comp] iter_view", repr(_e))
             return None
         if concrete_int(view.length) is not None or view.shape is None:
             # concrete spine: the generic path (looking at the iterator has not advanced it)
+            import os as _o
+            if _o.environ.get("PYVC_DEBUG_COMP"): print("[comp] view", view.length, view.shape)
             return None
         ctx = self.ctx
         n = view.length
@@ -1040,7 +1044,9 @@ class Interp:
         try:
             sample = elt_of(view.get(i))
             rshape = shape_of(sample)
-        except (Unsupported, ValueError):
+        except (Unsupported, ValueError) as _e:
+            import os as _o
+            if _o.environ.get("PYVC_DEBUG_COMP"): print("[comp] sample", repr(_e))
             return None
         identity = isinstance(g.target, ast.Name) and isinstance(node.elt, ast.Name) and node.elt.id == g.target.id
         r = lib.fresh_list(self, rshape, "filt")
